@@ -116,6 +116,8 @@ inductive Label where
   /-- the harness had to move the environment (open a gate, wake the parser, wait for a sleeper):
       the runner made no progress on its own -/
   | envMove
+  /-- the harness is about to poll the runner's stream again (logged once per poll in which something happened) -/
+  | poll
   /-- what the real `Summarize` said after the run's events went through it:
       `execution_has_failed`, failed steps, parsing errors, hook errors -/
   | verdict (failed : Bool) (failedSteps parseErrs hookErrs : Nat)
@@ -182,6 +184,8 @@ structure SState where
   /-- idle branch: (sleep hint reported, has `execute` suspended since) -/
   idleSleep : Bool := false
   idleSuspended : Bool := true
+  /-- the stream returned Pending (a new poll began) since the idle branch was entered -/
+  polledIdle : Bool := false
   parserStopped : Bool := false
   dis : List Dis := []
   pos : Nat := 0
@@ -251,6 +255,7 @@ def stepL (c : SCfg) (s : SState) (l : Label) : SState :=
   match l with
   | .other => s
   | .verdict .. => s
+  | .poll => if s.phase == .idle1 || s.phase == .idle2 then { s with polledIdle := true } else s
   | .rx _ => s
   | .cbIn .. => s
   | .cbOut .. => s
@@ -375,7 +380,7 @@ def stepL (c : SCfg) (s : SState) (l : Label) : SState :=
              else s.note .I "idle branch taken although something is running or runnable"
     let mfin := isFinished s.parserDone s.slots.isBrk s.q
     let s := if fin == mfin then s else s.note .I s!"is_finished = {fin}, model {mfin}"
-    let s := { s with idleSleep := sleep, idleSuspended := false }
+    let s := { s with idleSleep := sleep, idleSuspended := false, polledIdle := false }
     if fin then
       let fa := finishAll s.br
       { s with exiting := true, br := Brackets.empty,
@@ -396,6 +401,10 @@ def stepL (c : SCfg) (s : SState) (l : Label) : SState :=
     -- C04: an idle `execute` must give the parser / the clock a chance before looping again
     let s := if s.idleSuspended then s
       else { (s.note .I "execute re-enters its loop from the idle branch without having suspended (busy spin)") with idleSuspended := true }
+    -- C04: the wait must really SUSPEND `execute` (the stream returns Pending and is polled again), so that
+    -- the parser side gets polled; a blocking sleep / a yield that does not yield starves it
+    let s := if s.polledIdle then s
+      else s.note .I "the idle wait completed without the stream ever returning Pending (blocking wait: the parser side is starved)"
     { s with phase := .loopTop }
   | .disp n slots =>
     -- the start events (expected since GET2) must have been sent by now; dispatch the batch
